@@ -139,10 +139,39 @@ pub fn choose_weighted_bias(
         && catch(|| b.get_castle_rights(b.get_side_to_move()).has_any()).unwrap_or(false);
     let back = catch(|| b.get_side_to_move().get_back_rank().to_index()).unwrap_or(0);
     let pawn_rank = if back == 0 { 1 } else { 6 };
+    // pgn group only (fourth wave, C15-d): moves whose notation collides with another legal move's notation once case,
+    // capture mark, promotion mark and check suffix are ignored (`bxc3` / `Bxc3`, `Nf3` / `Nf3+` cannot both be legal, but
+    // `exd8=Q` / `exd8=N`, `Rad1` / `Rfd1` are separated only by such marks) weigh 256: an importer that normalises
+    // tokens too eagerly shows only there
+    let near: Vec<bool> = if castle_bias {
+        let sans: Vec<Option<String>> = legal
+            .iter()
+            .map(|m| catch(|| MovePropertiesOnBoard::new(m, b).ok().map(|p| m.to_string(p))).flatten())
+            .collect();
+        let norm = |t: &String| -> String { t.to_lowercase().chars().filter(|c| !matches!(c, '+' | '#' | 'x' | '=')).collect() };
+        let keys: Vec<Option<String>> = sans.iter().map(|t| t.as_ref().map(norm)).collect();
+        (0..legal.len()).map(|i| keys[i].is_some() && (0..legal.len()).any(|j| j != i && keys[j] == keys[i])).collect()
+    } else {
+        vec![false; legal.len()]
+    };
     let weights: Vec<usize> = legal
         .iter()
         .zip(classes.iter())
-        .map(|(m, c)| {
+        .enumerate()
+        .map(|(i, (m, c))| {
+            if near[i] {
+                return 256;
+            }
+            // same piece type to the same square as another legal move (disambiguated tokens, promotion choices)
+            if castle_bias {
+                if let BoardMove::MovePiece(p) = m {
+                    let twin = legal.iter().enumerate().any(|(j, o)| j != i && matches!(o, BoardMove::MovePiece(q)
+                        if q.get_piece_type() == p.get_piece_type() && q.get_destination_square() == p.get_destination_square()));
+                    if twin {
+                        return 24;
+                    }
+                }
+            }
             if castle_bias && c.castle {
                 return 64;
             }
@@ -671,6 +700,205 @@ pub fn g7(budget: usize, rng: &mut Rng, out: &mut Out, f: &mut dyn FnMut(&mut Ou
 }
 
 // ---------------------------------------------------------------------------------------------
+// G8 — motif composer (added after the fourth wave of seeded changes)
+// ---------------------------------------------------------------------------------------------
+
+/// One G8 candidate.  Earlier directed generators were each built around ONE shape; the fourth wave showed that the
+/// misses are always "two or three unusual things at once around the king of the side to move" (two pins of one kind,
+/// a double check plus a third line piece, a stalemate in which a pinned slider still has pseudo-legal moves ...).  G8
+/// therefore composes 1..=4 MOTIFS around the own king on lines radiating from it, then adds a random crowd:
+///   * pin      — own man of any type (pawn, knight, bishop, rook, queen) at distance d1 on a random line, enemy slider of
+///                the kind matching the line behind it at distance d2 > d1, nothing between (squares reserved);
+///   * check    — enemy slider of the matching kind on a random line with the squares between reserved, or an enemy knight
+///                a knight's jump away, or an enemy pawn attacking the king;
+///   * screen   — like pin but with TWO men between king and slider (own+own, own+enemy or enemy+own): not a pin;
+///   * mismatch — a man and behind it an enemy slider of the WRONG kind for the line (rook on a diagonal, bishop on a file);
+///   * box      — the own king's free neighbour squares are covered by putting enemy men so that few king moves remain.
+/// The side NOT to move must not be in check, which `setup` decides.  The implementation's own move list is used only to
+/// bias the sample (kept with certainty when at most 3 legal moves, two or more checkers, or two or more pinned men;
+/// otherwise with probability 12 %).
+pub fn g8_candidate(rng: &mut Rng) -> Option<(ChessBoard, String)> {
+    let mut cells: [Option<Piece>; 64] = [None; 64];
+    let mut reserved = [false; 64];
+    let stm = if rng.pct(50) { Color::White } else { Color::Black };
+    let (own, opp) = (stm, if stm == Color::White { Color::Black } else { Color::White });
+    let edge: [usize; 28] = [0,1,2,3,4,5,6,7,8,16,24,32,40,48,56,57,58,59,60,61,62,63,15,23,31,39,47,55];
+    let k = if rng.pct(35) { [0usize, 7, 56, 63][rng.below(4)] } else if rng.pct(50) { edge[rng.below(28)] } else { rng.below(64) };
+    cells[k] = Some(Piece(PieceType::King, own));
+    let (kr, kf) = ((k / 8) as i32, (k % 8) as i32);
+    let at = |r: i32, f: i32| -> Option<usize> { if (0..8).contains(&r) && (0..8).contains(&f) { Some((r * 8 + f) as usize) } else { None } };
+    let dirs: [(i32, i32); 8] = [(1,0),(-1,0),(0,1),(0,-1),(1,1),(1,-1),(-1,1),(-1,-1)];
+    let mut used_dir = [false; 8];
+    let n_motifs = rng.range(1, 4);
+    let mut label: Vec<&'static str> = Vec::new();
+    let pawn_ok = |s: usize| -> bool { (8..56).contains(&s) };
+    for _ in 0..n_motifs {
+        let kind = rng.below(100);
+        // choose an unused direction with at least 2 squares
+        let mut di = None;
+        for _ in 0..16 {
+            let d = rng.below(8);
+            if used_dir[d] { continue; }
+            let (dr, df) = dirs[d];
+            if at(kr + 2 * dr, kf + 2 * df).is_some() { di = Some(d); break; }
+        }
+        let slider_for = |orth: bool, rng: &mut Rng| -> PieceType { if rng.pct(30) { PieceType::Queen } else if orth { PieceType::Rook } else { PieceType::Bishop } };
+        if kind < 45 {
+            // pin
+            let d = match di { Some(d) => d, None => continue };
+            let (dr, df) = dirs[d];
+            let orth = dr == 0 || df == 0;
+            let maxd = (1..8).take_while(|i| at(kr + dr * i, kf + df * i).is_some()).count() as i32;
+            if maxd < 2 { continue; }
+            let d1 = rng.range(1, (maxd - 1) as usize) as i32;
+            let d2 = rng.range((d1 + 1) as usize, maxd as usize) as i32;
+            let (p1, p2) = (at(kr + dr * d1, kf + df * d1)?, at(kr + dr * d2, kf + df * d2)?);
+            if cells[p1].is_some() || cells[p2].is_some() { continue; }
+            if (1..d2).any(|i| { let s = at(kr + dr * i, kf + df * i).unwrap(); cells[s].is_some() }) { continue; }
+            let mut t = pt(rng.below(5));
+            if t == PieceType::Pawn && !pawn_ok(p1) { t = PieceType::Knight; }
+            cells[p1] = Some(Piece(t, own));
+            cells[p2] = Some(Piece(slider_for(orth, rng), opp));
+            for i in 1..d2 { reserved[at(kr + dr * i, kf + df * i).unwrap()] = true; }
+            used_dir[d] = true;
+            label.push("pin");
+        } else if kind < 70 {
+            // check
+            let sub = rng.below(10);
+            if sub < 6 {
+                let d = match di { Some(d) => d, None => continue };
+                let (dr, df) = dirs[d];
+                let orth = dr == 0 || df == 0;
+                let maxd = (1..8).take_while(|i| at(kr + dr * i, kf + df * i).is_some()).count() as i32;
+                let d2 = rng.range(1, maxd as usize) as i32;
+                let p2 = at(kr + dr * d2, kf + df * d2)?;
+                if cells[p2].is_some() { continue; }
+                if (1..d2).any(|i| { let s = at(kr + dr * i, kf + df * i).unwrap(); cells[s].is_some() }) { continue; }
+                cells[p2] = Some(Piece(slider_for(orth, rng), opp));
+                for i in 1..d2 { reserved[at(kr + dr * i, kf + df * i).unwrap()] = true; }
+                used_dir[d] = true;
+                label.push("chk");
+            } else if sub < 8 {
+                let jumps: [(i32, i32); 8] = [(1,2),(2,1),(-1,2),(-2,1),(1,-2),(2,-1),(-1,-2),(-2,-1)];
+                let (jr, jf) = jumps[rng.below(8)];
+                if let Some(s) = at(kr + jr, kf + jf) { if cells[s].is_none() { cells[s] = Some(Piece(PieceType::Knight, opp)); label.push("nchk"); } }
+            } else {
+                // enemy pawn attacking the king: it stands one rank "ahead" from the enemy's point of view
+                let pr = if opp == Color::White { kr - 1 } else { kr + 1 };
+                let pf = if rng.pct(50) { kf - 1 } else { kf + 1 };
+                if let Some(s) = at(pr, pf) { if cells[s].is_none() && pawn_ok(s) { cells[s] = Some(Piece(PieceType::Pawn, opp)); label.push("pchk"); } }
+            }
+        } else if kind < 82 {
+            // screen: two men between
+            let d = match di { Some(d) => d, None => continue };
+            let (dr, df) = dirs[d];
+            let orth = dr == 0 || df == 0;
+            let maxd = (1..8).take_while(|i| at(kr + dr * i, kf + df * i).is_some()).count() as i32;
+            if maxd < 3 { continue; }
+            let d3 = rng.range(3, maxd as usize) as i32;
+            let d1 = rng.range(1, (d3 - 2) as usize) as i32;
+            let d2 = rng.range((d1 + 1) as usize, (d3 - 1) as usize) as i32;
+            let (p1, p2, p3) = (at(kr + dr * d1, kf + df * d1)?, at(kr + dr * d2, kf + df * d2)?, at(kr + dr * d3, kf + df * d3)?);
+            if (1..=d3).any(|i| { let s = at(kr + dr * i, kf + df * i).unwrap(); cells[s].is_some() }) { continue; }
+            let c1 = if rng.pct(65) { own } else { opp };
+            let c2 = if rng.pct(50) { own } else { opp };
+            let mut t1 = pt(rng.below(5)); if t1 == PieceType::Pawn && !pawn_ok(p1) { t1 = PieceType::Knight; }
+            let mut t2 = pt(rng.below(5)); if t2 == PieceType::Pawn && !pawn_ok(p2) { t2 = PieceType::Knight; }
+            // an enemy man next to the king on the line must not itself be a checking slider: use knights/pawns for enemy screens
+            if c1 == opp { t1 = if pawn_ok(p1) && rng.pct(50) { PieceType::Pawn } else { PieceType::Knight }; }
+            cells[p1] = Some(Piece(t1, c1));
+            cells[p2] = Some(Piece(t2, c2));
+            cells[p3] = Some(Piece(slider_for(orth, rng), opp));
+            for i in 1..d3 { reserved[at(kr + dr * i, kf + df * i).unwrap()] = true; }
+            used_dir[d] = true;
+            label.push("scr");
+        } else if kind < 90 {
+            // mismatch: wrong kind of slider behind an own man
+            let d = match di { Some(d) => d, None => continue };
+            let (dr, df) = dirs[d];
+            let orth = dr == 0 || df == 0;
+            let maxd = (1..8).take_while(|i| at(kr + dr * i, kf + df * i).is_some()).count() as i32;
+            if maxd < 2 { continue; }
+            let d1 = rng.range(1, (maxd - 1) as usize) as i32;
+            let d2 = rng.range((d1 + 1) as usize, maxd as usize) as i32;
+            let (p1, p2) = (at(kr + dr * d1, kf + df * d1)?, at(kr + dr * d2, kf + df * d2)?);
+            if (1..=d2).any(|i| { let s = at(kr + dr * i, kf + df * i).unwrap(); cells[s].is_some() }) { continue; }
+            let mut t = pt(rng.below(5)); if t == PieceType::Pawn && !pawn_ok(p1) { t = PieceType::Knight; }
+            cells[p1] = Some(Piece(t, own));
+            cells[p2] = Some(Piece(if orth { PieceType::Bishop } else { PieceType::Rook }, opp));
+            used_dir[d] = true;
+            label.push("mis");
+        } else {
+            // box: cover neighbour squares with enemy knights/pawns/kings' zone by dropping a few enemy men at distance 2
+            for _ in 0..rng.range(1, 3) {
+                let (dr, df) = dirs[rng.below(8)];
+                let j = rng.range(2, 3) as i32;
+                if let Some(s) = at(kr + dr * j, kf + df * j) {
+                    if cells[s].is_none() && !reserved[s] {
+                        let t = pt(1 + rng.below(4));
+                        cells[s] = Some(Piece(t, opp));
+                    }
+                }
+            }
+            label.push("box");
+        }
+    }
+    // enemy king
+    let mut okk = false;
+    for _ in 0..200 {
+        let s = rng.below(64);
+        let d = ((s / 8) as i32 - kr).abs().max(((s % 8) as i32 - kf).abs());
+        if cells[s].is_none() && !reserved[s] && d >= 2 { cells[s] = Some(Piece(PieceType::King, opp)); okk = true; break; }
+    }
+    if !okk { return None; }
+    // crowd
+    let extra = rng.range(0, 7);
+    for _ in 0..extra {
+        let t = pt(rng.below(5));
+        let c = if rng.pct(65) { opp } else { own };
+        for _try in 0..30 {
+            let s = rng.below(64);
+            if cells[s].is_some() || reserved[s] { continue; }
+            if t == PieceType::Pawn && !pawn_ok(s) { continue; }
+            cells[s] = Some(Piece(t, c));
+            break;
+        }
+    }
+    let pcs: Vec<(Square, Piece)> = (0..64).filter_map(|i| cells[i].map(|p| (sq(i), p))).collect();
+    let none = CastlingRights::from_index(0).unwrap();
+    let b = catch(|| ChessBoard::setup(&pcs, stm, none, none, None, draw_clock(rng), draw_clock(rng)).ok()).flatten()?;
+    let legal = catch(|| b.get_legal_moves())?;
+    let nchk = catch(|| b.get_check_mask().count_ones()).unwrap_or(0);
+    let npin = catch(|| b.get_pin_mask().count_ones()).unwrap_or(0);
+    label.sort();
+    let mut l = label.join("+");
+    if l.is_empty() { l = "none".to_string(); }
+    if legal.len() <= 3 || nchk >= 2 || npin >= 2 || rng.pct(12) {
+        let tag = if legal.is_empty() { "term" } else if nchk >= 2 { "dblchk" } else if npin >= 2 { "pins2" } else if legal.len() <= 3 { "low" } else { "any" };
+        Some((b, format!("{tag}:{l}")))
+    } else {
+        None
+    }
+}
+
+pub fn g8(budget: usize, rng: &mut Rng, out: &mut Out, f: &mut dyn FnMut(&mut Out, &Visit, &mut Rng)) {
+    let mut kept = 0usize;
+    let mut tries = 0usize;
+    while kept < budget && tries < budget * 400 + 1000 && out.room() {
+        tries += 1;
+        out.stats.inc("gen.g8_candidates");
+        if let Some((b, kind)) = g8_candidate(rng) {
+            kept += 1;
+            let tag = kind.split(':').next().unwrap_or("any").to_string();
+            out.stats.inc(&format!("gen.g8_kept_{tag}"));
+            for m in kind.split(':').nth(1).unwrap_or("none").split('+') { out.stats.inc(&format!("gen.g8_motif_{m}")); }
+            note_position(&mut out.stats, &b, 8);
+            f(out, &Visit { board: &b, played: None, gen: 8 }, rng);
+        }
+    }
+}
+
+// ---------------------------------------------------------------------------------------------
 // G3
 // ---------------------------------------------------------------------------------------------
 
@@ -716,7 +944,7 @@ impl Spec {
     fn occupied(&self, s: usize) -> bool { self.pcs[..self.n as usize].iter().any(|p| p.0 as usize == s) }
 }
 
-pub const FAMILY_NAMES: [&str; 8] = ["pins_checks", "castling_paths", "ep_discovered", "promo_capture", "three_same", "corner_capture", "castle_check", "ep_discover_enemy"];
+pub const FAMILY_NAMES: [&str; 9] = ["pins_checks", "castling_paths", "ep_discovered", "promo_capture", "three_same", "corner_capture", "castle_check", "ep_discover_enemy", "special_with_ep"];
 
 fn rf(s: usize) -> (i32, i32) { ((s / 8) as i32, (s % 8) as i32) }
 
@@ -934,6 +1162,44 @@ fn family_ep(v: &mut Vec<Spec>) {
                             sp.put(own_p, P + own);
                             sp.put(opp_p, P + opp);
                             sp.put(s, sl + opp);
+                            v.push(sp);
+                        }
+                    }
+                }
+            }
+        }
+    }
+}
+
+/// Family 8 (fourth wave, C07-d): every kind of special move is available WHILE an en-passant square is set — castling
+/// (each rights combination of the side to move, with and without rights of the opponent), rook and king moves that
+/// lose rights, a promotion, and the en-passant capture itself (own pawn left / right of the pushed pawn, or none).
+fn family_special_with_ep(v: &mut Vec<Spec>) {
+    for stm in 0..2u8 {
+        let (own, opp) = if stm == 0 { (W, B) } else { (B, W) };
+        let (pr, er) = if stm == 0 { (4usize, 5usize) } else { (3, 2) };
+        let (back, oback, seventh) = if stm == 0 { (0usize, 56usize, 48usize) } else { (56, 0, 8) };
+        for or_ in 1..4u8 {
+            for xr in [0u8, 3u8] {
+                for f in 0..8usize {
+                    for adj in [None, f.checked_sub(1), if f + 1 < 8 { Some(f + 1) } else { None }] {
+                        for promo in [false, true] {
+                            let mut sp = Spec::new(stm, 8);
+                            if stm == 0 { sp.wr = or_; sp.br = xr; } else { sp.br = or_; sp.wr = xr; }
+                            sp.put(back + 4, K + own);
+                            sp.put(oback + 4, K + opp);
+                            if or_ & 1 != 0 { sp.put(back, R + own); }
+                            if or_ & 2 != 0 { sp.put(back + 7, R + own); }
+                            if xr != 0 { sp.put(oback, R + opp); sp.put(oback + 7, R + opp); }
+                            sp.put(pr * 8 + f, P + opp);
+                            sp.ep = (er * 8 + f) as i8;
+                            if let Some(a) = adj { sp.put(pr * 8 + a, P + own); }
+                            if promo {
+                                // an own pawn one step from promotion on a file whose promotion square is free
+                                let pf = (f + 3) % 8;
+                                if pf == 4 || (xr != 0 && (pf == 0 || pf == 7)) { continue; }
+                                sp.put(seventh + pf, P + own);
+                            }
                             v.push(sp);
                         }
                     }
@@ -1175,6 +1441,7 @@ pub fn g3_specs() -> Vec<Spec> {
     family_corner(&mut v);
     family_castle_check(&mut v);
     family_ep_discover_enemy(&mut v);
+    family_special_with_ep(&mut v);
     v
 }
 
@@ -1309,4 +1576,7 @@ pub fn all_sources(
     // G7 rides on the G3 budget (a quarter of it, at least 10)
     let mut r7 = Rng::new(seed, 107);
     g7((budgets[2] / 4).max(10), &mut r7, out, f);
+    // G8 (motif composer) as well
+    let mut r8 = Rng::new(seed, 108);
+    g8((budgets[2] / 4).max(10), &mut r8, out, f);
 }
